@@ -90,8 +90,12 @@ Definition ok_range (k : case) : bool :=
   negb (range_only k)
   || (let want := filter (fun r => in_window c (r_time r)) (recs k) in
       let want4 := map (fun r => (match r_type r with ENTRY => false | EXIT => true end, r_fn r, r_depth r, r_time r)) want in
+      let names := map (fun a => let '(x, f, _, _) := a in (x, f)) want4 in
       list_eqb rt_eqb want4 (o_raw k)
-      && list_eqb n_eqb (map (fun a => let '(x, f, _, _) := a in (x, f)) want4) (map nd_n (o_replay k))).
+      && list_eqb n_eqb names (map nd_n (o_replay k))
+      && list_eqb n_eqb names (map nd_n (o_script k))
+      (* dump --chrome closes what is still open at the end of the window *)
+      && list_eqb n_eqb (names ++ map (fun f => (true, f)) (open_stack names [])) (map nt_n (o_chrome k))).
 
 (* ---------------------------------------------------------------- record time vs replay time *)
 Record rcase := {
